@@ -164,6 +164,22 @@ def untag : MV → Option (Nat × MV)
   | .arr [.int t, p] => if t = 1 then some (1, p) else if t = 2 then some (2, p) else if t = 3 then some (3, p) else none
   | _ => none
 
+/-! ## structures (`to_vec_named`): a map keyed by the member names, in declaration order -/
+
+/-- the pairs of a structure's members, flat -/
+def members : List (List Nat × MV) → List MV
+  | [] => []
+  | (k, v) :: r => .str k :: v :: members r
+
+/-- what a derived `Serialize` writes for a structure with these (name, value) members -/
+def structMV (fields : List (List Nat × MV)) : MV := .map (members fields)
+
+/-- the derived visitor's lookup: the value stored under a member name (first occurrence; the derive refuses a repeated name) -/
+def field (k : List Nat) : List MV → Option MV
+  | .str k' :: v :: rest => if k' = k then some v else field k rest
+  | _ :: _ :: rest => field k rest
+  | _ => none
+
 /-- the value read from the bytes of a proof value -/
 def readTagged (bs : List Nat) : Option (Nat × MV) := (decode bs).bind untag
 
